@@ -973,6 +973,57 @@ def _requires_every(fa, sources):
     return seen_source, "its answer does not derive from the validated existence test"
 
 
+NO_FILE_NAMES = ("FileNotFoundError", "OSError", "IOError", "EnvironmentError", "Exception", "BaseException")
+
+
+class _ReadFails(Assume):
+    """The world without a pointer file, for the ask-forgiveness spelling of the first test: reading the pointer
+    raises FileNotFoundError, so a statement that reads it never completes normally and control continues in a handler
+    that covers that error (`try: p = read(key)` / `except FileNotFoundError: answer = False`)."""
+
+    def _reads(self, node_id):
+        """does the statement at this node read the pointer (in the world the plain assumptions describe: a read
+        in the branch of a conditional expression that the missing pointer rules out is not evaluated)?"""
+        from .c07 import sub_live
+        if node_id not in self._rd:
+            nd = self.fa.cfg.node(node_id)
+            plain = self._plain = getattr(self, "_plain", None) or Assume(self.fa, self.atom)
+            self._rd[node_id] = nd.ast is not None and nd.kind in ("stmt", "test", "with", "for") and any(
+                isinstance(x, ast.Call) and A.call_attr(x) == "_read_non_versioned_link" and sub_live(plain, x, node_id)
+                for x in A.walk_local(nd.ast))
+        return self._rd[node_id]
+
+    _rd = None
+
+    def __init__(self, fa, atom):
+        super().__init__(fa, atom)
+        self._rd = {}
+
+    @staticmethod
+    def _covers(h):
+        if h.type is None:
+            return True
+        ts = h.type.elts if isinstance(h.type, ast.Tuple) else [h.type]
+        return any(A.norm(t).split(".")[-1] in NO_FILE_NAMES for t in ts)
+
+    def guarded_reads(self):
+        """reads of the pointer whose failure is caught by a handler covering FileNotFoundError"""
+        out = []
+        for n in self.fa.cfg.nodes:
+            if n.id in self.fa.cfg.reachable_nodes() and self._reads(n.id):
+                if any(l == "exc" and self.fa.cfg.node(d).kind == "except" and self._covers(self.fa.cfg.node(d).ast) for (d, l) in self.fa.cfg.succ[n.id]):
+                    out.append(n.id)
+        return out
+
+    def edge_ok(self, s, d, l):
+        if self._reads(s):
+            if l != "exc":
+                return False
+            dn = self.fa.cfg.node(d)
+            return dn.kind != "except" or self._covers(dn.ast)
+        return super().edge_ok(s, d, l)
+
+
 def check_readers_validate(ck):
     R = "C08.R4"
     ck.rule(R, "readers validate: exists_nonversioned tests the pointer and the path it contains; presence queries "
@@ -1010,7 +1061,9 @@ def check_readers_validate(ck):
                 if h is not None and h.qual != fa.qual:
                     return answers(FA(ck, h), base, depth - 1)
             return v
-        asm = Assume(fa, atom)
+        asm = (_ReadFails if base is no_pointer else Assume)(fa, atom)
+        if base is no_pointer and asm.guarded_reads():
+            hits["ptr"] += 1
         vals = set()
         for r in fa.returns():
             for i in asm.live(r):
